@@ -6,7 +6,7 @@
    (re-parse and compare on regular probes; reference specifier syntax), not by a theorem. *)
 From Coq Require Import List Bool NArith String.
 From PC Require Import Base.Cmp Base.Result Model.Pep440 Spec.Pep440Spec Spec.Specifier Model.VConstraint
-     Proofs.VersionFacts Proofs.RangeSpec Proofs.SpecifierAgree Proofs.Bumps Proofs.Compat Proofs.Pep440RoundTrip Proofs.ClauseText.
+     Proofs.VersionFacts Proofs.RangeSpec Proofs.SpecifierAgree Proofs.Bumps Proofs.Compat Proofs.Pep440RoundTrip Proofs.ClauseText Proofs.AnyIff Proofs.ConstraintText.
 Import ListNotations.
 Open Scope string_scope.
 
@@ -73,3 +73,25 @@ Example C15_compat_is_parsed :
     parse "1.4.5.2" = Some w /\ parse_single false "~=1.4.5.2" = Ok (VOne (compat_range w)) /\
     parse "1!3.7" = Some u /\ parse_single false "~= 1!3.7" = Ok (VOne (compat_range u)).
 Proof. do 3 eexists. repeat split; vm_compute; reflexivity. Qed.
+
+(* the text round trip, as a theorem, for single versions, half-lines and bounded ranges: what str() prints parses back (through the
+   two re.split calls of _parse_constraint and the clause patterns) to the very same constraint.  [normal v]: v is printable
+   and carries its normal form as text (true of every bound the algebra builds and of every bound parsed from normal text);
+   bounded ranges must be proper, not degenerate ('>=2.0.dev1,<2.0' parses to the empty constraint) and not of the shape that
+   prints as a wildcard. *)
+Theorem C15_printed_range_roundtrip : forall m r,
+  match r with
+  | RV v => normal v = true
+  | RR (Some a) None _ false => normal a = true
+  | RR None (Some b) false _ => normal b = true
+  | RR (Some a) (Some b) _ _ => normal a = true /\ normal b = true /\ vltb a b = true /\ nondeg r = true /\ is_single_wildcard_range r = false
+  | _ => False
+  end ->
+  parse_constraint_text m true (r_str r) = Ok (VOne r).
+Proof. exact printed_range_roundtrip. Qed.
+Print Assumptions C15_printed_range_roundtrip.
+Example C15_roundtrip_example :
+  exists a b, parse "1!2.0rc1" = Some a /\ parse "1!3.1.post2" = Some b /\ normal a = true /\ normal b = true /\
+    vltb a b = true /\ nondeg (RR (Some a) (Some b) false true) = true /\ is_single_wildcard_range (RR (Some a) (Some b) false true) = false /\
+    r_str (RR (Some a) (Some b) false true) = ">1!2.0rc1,<=1!3.1.post2".
+Proof. do 2 eexists. repeat split; vm_compute; reflexivity. Qed.
